@@ -406,4 +406,39 @@ theorem quantisePoolingScale_ok (n : Int) (N : Nat) (hn : 1 ≤ n) (hn53 : n ≤
   rw [t1, t2, Int.fdiv_eq_ediv_of_nonneg _ (by omega)]
   congr 2
 
+/-! ### exact comparisons -/
+
+theorem magLt_asymm (m1 : Nat) (e1 : Int) (m2 : Nat) (e2 : Int) (h : magLt m1 e1 m2 e2 = true) :
+    magLt m2 e2 m1 e1 = false := by
+  unfold magLt at *
+  simp only [decide_eq_true_eq, decide_eq_false_iff_not] at *
+  rw [Int.min_comm e2 e1]
+  omega
+
+theorem Dbl.lt_asymm (a b : Dbl) (h : Dbl.lt a b = true) : Dbl.lt b a = false := by
+  cases a with
+  | nan => simp [Dbl.lt] at h
+  | inf n1 =>
+    cases b with
+    | nan => simp [Dbl.lt] at h
+    | inf n2 => cases n1 <;> cases n2 <;> simp [Dbl.lt] at h ⊢
+    | zero n2 => cases n1 <;> simp [Dbl.lt] at h ⊢
+    | fin n2 m2 e2 => cases n1 <;> simp [Dbl.lt] at h ⊢
+  | zero n1 =>
+    cases b with
+    | nan => simp [Dbl.lt] at h
+    | inf n2 => cases n2 <;> simp [Dbl.lt] at h ⊢
+    | zero n2 => simp [Dbl.lt] at h
+    | fin n2 m2 e2 => cases n2 <;> simp [Dbl.lt] at h ⊢
+  | fin n1 m1 e1 =>
+    cases b with
+    | nan => simp [Dbl.lt] at h
+    | inf n2 => cases n2 <;> simp [Dbl.lt] at h ⊢
+    | zero n2 => cases n1 <;> simp [Dbl.lt] at h ⊢
+    | fin n2 m2 e2 =>
+      cases n1 <;> cases n2 <;> simp only [Dbl.lt] at h ⊢
+      · exact magLt_asymm _ _ _ _ h
+      · cases h
+      · exact magLt_asymm _ _ _ _ h
+
 end VelaVerif.Scaling
